@@ -35,9 +35,13 @@ class Crate:
     def _annotate(self):
         """resolve interned type indices to strings in place (ty, adj, owner, gen)"""
         strs = self.strs
+        expns = self.expns
 
         def fix(n):
             if isinstance(n, dict):
+                x = n.get("x")
+                if isinstance(x, int):
+                    n["xk"] = expns[x]["inner"]
                 for k in ("ty", "adj", "owner", "gen", "impl_self", "output"):
                     v = n.get(k)
                     if isinstance(v, int):
